@@ -6,6 +6,7 @@ pub mod cluster;
 pub mod clusterrun;
 pub mod common;
 pub mod evidence;
+pub mod hostile;
 pub mod model;
 pub mod net;
 pub mod poolsim;
